@@ -316,6 +316,8 @@ def xattrPrefixSpec (idx : Nat) : Bytes :=
   | 4 => "trusted.".toUTF8.toList
   | 6 => "security.".toUTF8.toList
   | 7 => "system.".toUTF8.toList
+  | 8 => "system.richacl".toUTF8.toList
+  | 10 => "gnu.".toUTF8.toList
   | n => "unknown_".toUTF8.toList ++ (toString n).toUTF8.toList ++ ".".toUTF8.toList
 
 /-- entry table at `pos` of `buf`, values at `base + e_value_offs` of `buf`; ends at four zero bytes or `lim` -/
